@@ -51,6 +51,19 @@ var stdSinks = map[string]bool{
 	"os.(*File).WriteString": false,
 }
 
+// logAllow lists the package-level functions of log and log/slog that do not
+// touch the default logger (constructors of loggers, handlers, attributes).
+var logAllow = map[string]bool{
+	"log.New": true,
+	"log/slog.New": true, "log/slog.NewTextHandler": true, "log/slog.NewJSONHandler": true,
+	"log/slog.String": true, "log/slog.Int": true, "log/slog.Int64": true, "log/slog.Uint64": true,
+	"log/slog.Float64": true, "log/slog.Bool": true, "log/slog.Time": true, "log/slog.Duration": true,
+	"log/slog.Any": true, "log/slog.Group": true, "log/slog.GroupValue": true, "log/slog.StringValue": true,
+	"log/slog.IntValue": true, "log/slog.Int64Value": true, "log/slog.Uint64Value": true, "log/slog.Float64Value": true,
+	"log/slog.BoolValue": true, "log/slog.TimeValue": true, "log/slog.DurationValue": true, "log/slog.AnyValue": true,
+	"log/slog.NewRecord": true,
+}
+
 func isStdlib(p *types.Package) bool {
 	if p == nil {
 		return true
@@ -279,6 +292,16 @@ func cmdSilent(args []string) {
 					name = callee.Pkg.Pkg.Path() + "." + callee.Name()
 				}
 				stdCalls[name] = true
+				// package-level functions of log and log/slog go through the
+				// process-wide default logger unless they are pure constructors
+				if callee.Pkg != nil && callee.Signature.Recv() == nil {
+					pp := callee.Pkg.Pkg.Path()
+					if (pp == "log" || pp == "log/slog") && callee.Name() != "init" && !logAllow[pp+"."+callee.Name()] {
+						findings = append(findings, silentFinding{fn.String(), "calls " + name + " (default-logger API)", pos(ins)})
+						ok = false
+						continue
+					}
+				}
 				if stdSinks[name] {
 					findings = append(findings, silentFinding{fn.String(), "calls " + name, pos(ins)})
 					ok = false
